@@ -8,6 +8,8 @@ mod e4;
 mod evid;
 mod mon;
 mod mon2;
+#[cfg(all(feature = "conc", feature = "hooks"))]
+mod proto;
 mod progs;
 mod props;
 
